@@ -116,7 +116,7 @@ class Verdict:
         for rec in self.unlisted:
             kind = (rec.get("kind"), rec.get("rule"))
             shown_kinds[kind] = shown_kinds.get(kind, 0) + 1
-            if shown_kinds[kind] > 3 or len(replay_paths) >= 25:
+            if shown_kinds[kind] > 2 or len(replay_paths) >= 150:
                 continue
             d = env.digest(json.dumps(rec, sort_keys=True, default=str))
             path = out_dir("replays") / self.prop / f"{d}.json"
